@@ -121,12 +121,47 @@ def replay(ctx, name, cx, fin, patches, use_names):
         ctx.violation('numbering-not-gapfree ' + sig_base,
                       {'complex': name, 'fin': fin, 'gidx': gidx.tolist(), 'numdofs': numdofs})
         return
+    NPt = cx['NP']
     for p, X in enumerate(Xs):
         Xd = X.toarray()
         if Xd.shape != (numdofs, N) or not np.all((Xd == 0) | (Xd == 1)) or \
                 not np.all(Xd.sum(axis=0) == 1) or not np.array_equal(Xd.T @ Xd, np.eye(N)):
             ctx.violation('patch_to_global-not-01 ' + sig_base, {'complex': name, 'fin': fin, 'patch': p})
             return
+        # the matrix is the index map; the j_global form places it in the columns of patch p; global_to_patch is its
+        # transpose and left inverse
+        try:
+            I = np.asarray(MP.patch_to_global_idx(p))
+            E = np.zeros((numdofs, N))
+            E[I, np.arange(N)] = 1
+            Xg = MP.patch_to_global(p, j_global=True).toarray()
+            Eg = np.zeros((numdofs, NPt * N))
+            Eg[:, p * N:(p + 1) * N] = E
+            Gp = MP.global_to_patch(p).toarray()
+            if not np.array_equal(Xd, E) or not np.array_equal(Xg, Eg) or not np.array_equal(Gp, E.T) or \
+                    not np.array_equal(Gp @ Xd, np.eye(N)):
+                ctx.violation('patch_to_global/global_to_patch inconsistent with patch_to_global_idx ' + sig_base,
+                              {'complex': name, 'fin': fin, 'patch': p})
+                return
+        except Exception as ex:
+            ctx.violation('exception %s patch_to_global(j_global)/global_to_patch %s' % (type(ex).__name__, sig_base),
+                          {'error': repr(ex)})
+            return
+    # Multipatch(patches, automatch=True) = all detected interfaces joined + finalize: the numbering of the full history
+    # (only lattice complexes are embedded geometrically; the rings are abstract gluings whose patches coincide in space)
+    if cx['kind'] == 'lattice' and sorted(set(hist)) == list(range(1, len(cx['interfaces']) + 1)) and len(hist) == len(cx['interfaces']):
+        try:
+            MA = assemble.Multipatch(patches, automatch=True)
+            ga = np.concatenate([MA.patch_to_global_idx(p) for p in range(NPt)])
+            m1, m2 = {}, {}
+            oka = int(MA.numdofs) == numdofs
+            for g, l in zip(ga.tolist(), label):
+                if m1.setdefault(g, l) != l or m2.setdefault(l, g) != g:
+                    oka = False
+            if not oka:
+                ctx.violation('automatch-partition-mismatch complex=%s' % name, {'fin': fin, 'gidx': ga.tolist()})
+        except Exception as ex:
+            ctx.violation('exception %s Multipatch(automatch=True) complex=%s' % (type(ex).__name__, name), {'error': repr(ex)})
 
 
 def check_detect(ctx, name, cx, patches, perm=None):
